@@ -58,6 +58,7 @@ type Knobs struct {
 	MaxSteps       int    `json:"max_steps,omitempty"`
 	CtxErrPoints   bool   `json:"ctx_err_points,omitempty"`
 	TargetSite     int    `json:"target_site,omitempty"`
+	TargetNth      int    `json:"target_nth,omitempty"`
 }
 
 // GenKnobs draws scheduler knobs.
@@ -78,6 +79,9 @@ func GenKnobs(r *Rand) Knobs {
 		// targeted preemption: one site of the rewritten library, drawn from the site table
 		k.Strategy, k.StickyP, k.PCTDepth = "target", 0, 0
 		k.TargetSite = 1 + r.Intn(len(Sites))
+		if r.Pct(50) {
+			k.TargetNth = 1 + r.Intn(12)
+		}
 	}
 	return k
 }
@@ -91,6 +95,7 @@ func (k Knobs) Config(schedSeed uint64) simrt.Config {
 		ColdQueueLocks: k.ColdQueueLocks,
 		CtxErrPoints:   k.CtxErrPoints,
 		TargetSite:     k.TargetSite,
+		TargetNth:      k.TargetNth,
 		EOFReadCostMs:  k.EOFReadCostMs,
 		MaxSteps:       k.MaxSteps,
 	}
